@@ -684,6 +684,10 @@ theorem specStep_no_fault (rem : List Nat) (op : Iter.IterOp) (f : Fault) :
       | some x => (rem.dropLast, Out.some x)).2 ≠ Out.fault f
     cases rem.getLast? <;> simp
   | len => simp [Iter.specStep]
+  | nth k => simp only [Iter.specStep]; cases rem[k]? <;> simp
+  | nthBack k => simp only [Iter.specStep]; cases rem.reverse[k]? <;> simp
+  | count => simp [Iter.specStep]
+  | last => simp only [Iter.specStep]; cases rem.getLast? <;> simp
 
 theorem specRun_no_fault : ∀ (ops : List Iter.IterOp) (rem : List Nat) (o : Out),
     o ∈ Iter.specRun rem ops → ∀ f, o ≠ .fault f
